@@ -2,7 +2,7 @@
    Only statements closed by [exact]; the lemmas live in Proofs/Reference.v.
    The regular expressions are Generated/Regexes.v (re-translated from
    registry/reference.go on every run). *)
-From Oras Require Import Base.Prelude Base.Regex Generated.GC20 Model.Reference Model.RefOps Proofs.Reference Proofs.RefOps Proofs.RefURL Proofs.RefGrammar Model.NetURL Proofs.NetURL.
+From Oras Require Import Base.Prelude Base.Regex Generated.GC20 Model.Reference Model.RefOps Proofs.Reference Proofs.RefOps Proofs.RefURL Proofs.RefGrammar Model.NetURL Proofs.NetURL Proofs.RefDescOps.
 
 (* ParseReference accepts exactly the grammar (any registry predicate). *)
 Theorem C20_parse_iff_grammar :
@@ -346,4 +346,44 @@ Example C20_query_examples :
   query_escape (b "a b&c=d/e#f?") = b "a+b%26c%3Dd%2Fe%23f%3F" /\
   url_referrers_at false (mkRef (b "h") (b "a") (b "t")) (b "x/y z") = b "https://h/v2/a/referrers/t?artifactType=x%2Fy+z" /\
   url_referrers_at false (mkRef (b "h") (b "a") (b "t")) [] = b "https://h/v2/a/referrers/t".
+Proof. vm_compute. repeat split. Qed.
+
+(* ---------- descriptor-driven operations (Fetch, Delete, Referrers, Mount, Push, Tags) ---------- *)
+
+(* setQueryParams / url.Values.Encode output is decoded by url.ParseQuery to exactly the
+   parameters that were put in, for all byte strings as keys and values *)
+Theorem C20_parse_query_encode :
+  forall ps, ps <> [] -> params_bytes ps -> parse_query (encode_params ps) = Some ps.
+Proof. exact parse_query_encode. Qed.
+Print Assumptions C20_parse_query_encode.
+
+(* every such operation sends one request, of the documented method, to exactly the operation's
+   slot /v2/<base repository>/<slot> of the base registry (authority = host, no user-info, no
+   fragment, exact segments); no query where none is documented, otherwise a query that decodes
+   to exactly the documented parameters (referrers: artifactType, n; tags: n, last; mount: mount,
+   from) -- for every artifact type / last tag byte string, every page size string, every valid
+   digest, every valid base *)
+Theorem C20_desc_op_requests_exact :
+  forall (avail vr : str -> bool) op plain breg brepo d a1 num,
+    (forall reg, vr reg = true -> reg_clean reg = true) ->
+    vr breg = true -> valid_repository brepo = true -> valid_digest avail d = true ->
+    bytes a1 -> bytes num -> (op = DMount -> valid_repository a1 = true) ->
+    exists u q,
+      desc_op_requests op plain (mkRef breg brepo []) d a1 num = [(desc_op_method op, u)] /\
+      url_split u = Some (mkParts (scheme plain) (host_of breg) (path_of brepo (desc_op_slot op d)) q None) /\
+      split_on c_slash (path_of brepo (desc_op_slot op d)) = [[]; b "v2"] ++ split_on c_slash brepo ++ desc_op_slot op d /\
+      contains c_at (host_of breg) = false /\
+      match desc_op_params op d a1 num with
+      | [] => q = None
+      | ps => exists qs, q = Some qs /\ parse_query qs = Some ps
+      end.
+Proof. exact (fun avail vr op plain breg brepo d a1 num H => desc_op_requests_exact avail vr H op plain breg brepo d a1 num). Qed.
+Print Assumptions C20_desc_op_requests_exact.
+
+Example C20_desc_op_examples :
+  desc_op_requests DTags true (mkRef (b "localhost:5000") (b "a/b") []) [] (b "x y&z") (b "50")
+  = [(b "GET", b "http://localhost:5000/v2/a/b/tags/list?n=50&last=x+y%26z")] /\
+  desc_op_requests DReferrers false (mkRef (b "docker.io") (b "library/x") []) (b "sha256:ab") (b "a/b") []
+  = [(b "GET", b "https://registry-1.docker.io/v2/library/x/referrers/sha256:ab?artifactType=a%2Fb")] /\
+  parse_query (b "n=50&last=x+y%26z") = Some [(b "n", b "50"); (b "last", b "x y&z")].
 Proof. vm_compute. repeat split. Qed.
